@@ -141,7 +141,7 @@ Record expr_ok := {
   eo_range : option (option uexpr * span * bool * option uexpr);       (* Expr::Range: start, limits, closed, end *)
   eo_str : option string;                                              (* Expr::Lit(Lit::Str): its value *)
   eo_unx : option span }.                                              (* leftover inside one of its own groups *)
-Record path_ok := { po_n : nat; po_p : rpath }.
+Record path_ok := { po_n : nat; po_p : rpath; po_unx : option span }.   (* po_unx: leftover inside one of the path's own groups (generic arguments) *)
 Record closure_ok := {
   co_n : nat; co_u : uexpr;
   co_inputs : nat;                 (* closure.inputs.len() *)
@@ -256,7 +256,7 @@ Section Parser.
                  end.
   Definition p_path : M rpath :=
     fun sc st => match parse_path (toks st) with
-                 | OOk r => POk (po_p r) {| toks := skipn (po_n r) (toks st); ctr := ctr st; unx := unx st |}
+                 | OOk r => POk (po_p r) {| toks := skipn (po_n r) (toks st); ctr := ctr st; unx := first_wins (unx st) (po_unx r) |}
                  | OErr e => PErr (oerr_span e sc) (ctr st)
                  end.
   Definition p_closure : M closure_ok :=
